@@ -358,4 +358,8 @@ func genC18() {
 		syn[fn] = c18BodyFact(sfset, sf, fn)
 	}
 	facts["bisync_syncer_predicates"] = syn
+
+	// the inventory of target writers (C13) and the cluster transaction flag (C18): own generator name,
+	// so that a failure here is reported as `gen_errors[c13]` and leaves the facts above intact
+	runGen("c13", genC13Writers)
 }
